@@ -471,7 +471,8 @@ func init() {
 		explain: "R13.1: for every function of the module with result type (bool, error) (the public validators, their helpers and closures, and the js/wasm validator), every return — with phis split per incoming edge and the edge's branch conditions — is (const true, const nil), (const false, e) with e provably non-nil " +
 			"(a sentinel initialised by errors.New and never written, an error constructor call, or a value on the true edge of e != nil), or both results of one call of another such module function (inductive). Anything else, in particular (false, nil) and (true, err), is reported with the return site. " +
 			"R13.2: information flow (engine of C09) with labels K = every string parameter of an exported function that reaches DecodeSecret / the hmac.New key (found by a first per-parameter flow pass) and H = HMAC output: no argument of fmt.Errorf / errors.New in otp and wasm carries K or H, and no error result of an exported operation carries K or H through an input-echoing library error (strconv); base32/hex decode errors are summarised as position-only. " +
-			"Not decided: logging (the wasm binding logs codes to the console, which is not an error per the statement).",
+			"Not decided: logging (the wasm binding logs codes to the console, which is not an error per the statement). " +
+			"R13.3 every error result of a call in the library is looked at (tested, returned, wrapped or stored): an error overwritten by the next step before anyone read it cannot become the (false, error) verdict.",
 		trusted:  []string{"base32.CorruptInputError and hex.InvalidByteError carry a position / one byte, not the input"},
 		quick:    []Config{CfgNative, CfgWasm},
 		thorough: []Config{CfgNative, CfgWasm, Cfg386},
